@@ -77,5 +77,48 @@ theorem anscombeT_lt_iff {x y : ℝ} (hx : 0 < x) (hy : 0 < y) : anscombeT rpw x
     · exact lt_asymm h (anscombeT_lt hy hlt)
   · exact anscombeT_lt hx
 
+/-! ### the domain: which visible entries are finite, and what is visible -/
+
+/-- the linear residual of finite inputs is non-finite (division by an exact zero) exactly where `√model = 0`, i.e. `model ≤ 0` -/
+theorem linResid_bad (mk : Option ℝ) (m d : Cell ℝ) :
+    (linResidCell Real.sqrt mk m d).bad = (m.bad || d.bad || decide (m.val ≤ 0)) := by
+  cases mk <;> simp only [linResidCell, Cell.div, Cell.sub, Cell.maSqrt, Cell.maskedWhere] <;>
+    cases m.bad <;> cases d.bad <;> simp [Real.sqrt_eq_zero']
+
+/-- a visible, finite entry of the linear residual has a positive model value -/
+theorem linResid_visible_pos (mk : Option ℝ) (m d : Cell ℝ)
+    (hb : (linResidCell Real.sqrt mk m d).bad = false) : 0 < m.val := by
+  rw [linResid_bad] at hb
+  simp only [Bool.or_eq_false_iff, decide_eq_false_iff_not, not_le] at hb
+  exact hb.2
+
+/-- a visible entry of the Anscombe residual has positive model and data values -/
+theorem anscombe_visible_pos (pw : Int → Nat → ℝ → ℝ) (mk : Option ℝ) (m d : Cell ℝ)
+    (hv : (anscombeCell pw mk m d).mask = false) : 0 < m.val ∧ 0 < d.val := by
+  rw [anscombe_mask] at hv
+  simp only [Bool.or_eq_false_iff, Bool.not_eq_false', decide_eq_true_eq] at hv
+  exact ⟨hv.1.1.2, hv.1.2⟩
+
+/-- …and is finite when the inputs are: the only division by a non-constant is by `model^(1/6) > 0` -/
+theorem anscombe_bad_of_pos (mk : Option ℝ) (m d : Cell ℝ) (hm : 0 < m.val) :
+    (anscombeCell rpw mk m d).bad = (m.bad || d.bad) := by
+  have hp : rpw 1 6 m.val ≠ 0 := by
+    have : 0 < rpw 1 6 m.val := by simpa [rpw] using Real.rpow_pos_of_pos hm _
+    exact this.ne'
+  cases mk <;>
+    simp [anscombeCell, Cell.div, Cell.sub, Cell.mul, Cell.neg, Cell.map, Cell.maPower, Cell.maskedWhere,
+      Cell.nat, Cell.frac, Cell.plain, hp] <;>
+    cases m.bad <;> cases d.bad <;> simp
+
+/-- an entry whose data value, or model value, is exactly zero is masked in the Anscombe residual, with or without a level -/
+theorem anscombe_zero_masked (pw : Int → Nat → ℝ → ℝ) (mk : Option ℝ) (m d : Cell ℝ) (h : d.val = 0 ∨ m.val = 0) :
+    (anscombeCell pw mk m d).mask = true := by
+  rw [anscombe_mask]
+  rcases h with h | h <;> simp [h]
+
+/-- the level mask only ever hides entries whose model value is at or below the level -/
+theorem levelMask_le (k m d : ℝ) (h : levelMask (some k) m d = true) : m ≤ k ∧ d ≤ k := by
+  simpa [levelMask] using h
+
 end
 end DadiVerif.Lik
